@@ -204,6 +204,51 @@ func c20RunRaw(cs c20Case) (fs []F) {
 			}
 			guard("Put", func() { p.Put(g) })
 		}
+	case "pool-append":
+		// a buffer taken from a pool of capacity 0 is given storage by appending to it and is kept; the
+		// next buffer from the pool is again an inert one, and another object
+		ctl := poolctl.NewSeq(func(n int) int { return 0 })
+		defer ctl.Bind()()
+		var p dyn.Pool
+		guard("PoolAlloc", func() { p = dyn.NewPool(t, a) })
+		if p == nil {
+			return
+		}
+		var g1, g2 dyn.Buf
+		if !guard("Get", func() { g1 = p.Get() }) {
+			return
+		}
+		src := dyn.Alloc(t, al(cs.C, 2, 2))
+		for i := 0; i < src.Len(); i++ {
+			src.SetSample(i, dyn.Tok(t, tk(int64(i+1))))
+		}
+		guard("Append(non-empty) to the pooled buffer", func() { g1.Append(src) })
+		h1 := hdr(g1)
+		if !guard("second Get", func() { g2 = p.Get() }) {
+			return
+		}
+		if g2.Ptr() == g1.Ptr() {
+			fail("shape", "two buffers taken from the pool without a Put in between are the same object")
+		}
+		if h := hdr(g2); h != wantH {
+			fail("shape", "the second buffer from the pool has shape %+v, want %+v (the first one was appended to and kept)", h, wantH)
+		}
+		sl := sentSl(t, 3)
+		ret := -1
+		guard("Read", func() { ret = dyn.Read(g2, sl) })
+		if ret != 0 {
+			fail("count", "Read from the second pooled buffer returned %d", ret)
+		}
+		slOK(sl, "Read")
+		guard("AppendSample", func() { g2.AppendSample(dyn.Tok(t, 9)) })
+		if h := hdr(g1); h != h1 {
+			fail("transfer", "using the second pooled buffer changed the first one from %+v to %+v", h1, h)
+		}
+		for i := 0; i < g1.Len() && i < src.Len(); i++ {
+			if g := g1.Sample(i).Tok(); g != tk(int64(i+1)) {
+				fail("transfer", "using the second pooled buffer changed sample %d of the first one to %d", i, g)
+			}
+		}
 	}
 	return
 }
@@ -287,6 +332,14 @@ func init() {
 					for _, n := range []int{0, 1, 2, 600, 5000} {
 						add("append", func(cs *c20Case) { cs.N = n })
 					}
+					if t == dyn.Int8 && sh.C > 0 && sh.C <= 3 { // empty sources with very large capacities
+						for _, n := range []int{1<<20 + 1, 1 << 23, 1<<24 + 5, 1<<25 + 1} {
+							add("append", func(cs *c20Case) { cs.N = n / sh.C })
+						}
+					}
+					if sh.C > 0 && sh.K == 0 {
+						add("pool-append", nil)
+					}
 					// reads, writes and conversions: every zero-length buffer (incl. capacity > 0)
 					for t2 := 0; t2 < dyn.NB; t2++ {
 						// conversions: all 169 instantiations on every degenerate shape
@@ -310,7 +363,7 @@ func init() {
 			c.Sample(cases[3])
 			c.Sample(cases[len(cases)/3])
 			c.Sample(cases[len(cases)-1])
-			c.Set("rule", "ChannelLength(n,0) for n in 0..5; every allocator with Channels, Length, Capacity in 0..3, L<=K and at least one of them 0 (incl. the zero value) x 13 element types, plus 9- and 65-channel and 1100/5000-frame-capacity degenerate shapes for 4 types, x {shape methods, Slice(0,0), Channel(c) shape methods, pool Get/AppendSample/Put twice, AppendSample x3 (no storage), Append of an empty buffer of capacity 0, 1, 2, 600, 5000 frames, Write/Read/WriteStriped/ReadStriped with slices of length 0..3, every conversion into and out of it (all 169 instantiations) against an equally degenerate and a normal 2-frame partner}; slice element types for reads/writes: all 13 at the zero allocator, same type + int8 + float64 elsewhere; oracle: no panic, lengths/capacities 0 where stated, every returned count 0, caller slices and partner buffers untouched; all cases distinct and non-trivial")
+			c.Set("rule", "ChannelLength(n,0) for n in 0..5; every allocator with Channels, Length, Capacity in 0..3, L<=K and at least one of them 0 (incl. the zero value) x 13 element types, plus 9- and 65-channel and 1100/5000-frame-capacity degenerate shapes for 4 types, x {shape methods, Slice(0,0), Channel(c) shape methods, pool Get/AppendSample/Put twice, AppendSample x3 (no storage), Append of an empty buffer of capacity 0, 1, 2, 600, 5000 frames (int8: also 2^20+1 .. 2^25+1 samples), a pool of capacity 0 whose first buffer is appended to and kept while a second one is taken, Write/Read/WriteStriped/ReadStriped with slices of length 0..3, every conversion into and out of it (all 169 instantiations) against an equally degenerate and a normal 2-frame partner}; slice element types for reads/writes: all 13 at the zero allocator, same type + int8 + float64 elsewhere; oracle: no panic, lengths/capacities 0 where stated, every returned count 0, caller slices and partner buffers untouched; all cases distinct and non-trivial")
 			c.Assume("Sample/SetSample have no valid index on these buffers and are not called")
 		},
 		RunCase: func(c *core.Ctx, raw json.RawMessage) []F { return c20Run(decode[c20Case](raw)) },
